@@ -4,54 +4,28 @@
 //@ include lib_spec.rs
 verus! {
 
-// ---- callee stubs (contracts discharged elsewhere; see units.toml `assumes`) ----
+// ---- callee stubs (contracts proved by the units named in units.toml) ----
 impl GenericNetflowHeader {
-    // derive(Nom) on `struct { version: u16 }` == be_u16; discharged by K.lib.generic_header
-    #[verifier::external_body]
-    fn parse(i: &[u8]) -> (r: IResult<&[u8], GenericNetflowHeader>)
-        ensures
-            i@.len() < 2 ==> r is Err,
-            i@.len() >= 2 ==> r is Ok && r->Ok_0.0@ == i@.subrange(2, i@.len() as int)
-                && r->Ok_0.1.version == be16(i@, 0),
-    { unimplemented!() }
+//@ stub stubs/generic_header_parse.rs
 }
 pub struct V5Parser;
 pub struct V7Parser;
 impl V5Parser {
-    #[verifier::external_body]
-    pub fn parse(packet: &[u8]) -> (r: Result<ParsedNetflow, NetflowParseError>)
-        ensures to_subres(r) == v5_fn(packet@), sub_wf(packet@, v5_fn(packet@), 5),
-    { unimplemented!() }
+//@ stub stubs/v5parser_parse.rs
 }
 impl V7Parser {
-    #[verifier::external_body]
-    pub fn parse(packet: &[u8]) -> (r: Result<ParsedNetflow, NetflowParseError>)
-        ensures to_subres(r) == v7_fn(packet@), sub_wf(packet@, v7_fn(packet@), 7),
-    { unimplemented!() }
+//@ stub stubs/v7parser_parse.rs
 }
 impl V9Parser {
-    #[verifier::external_body]
-    pub fn parse(&mut self, packet: &[u8]) -> (r: Result<ParsedNetflow, NetflowParseError>)
-        ensures (to_subres(r), *final(self)) == v9_fn(*old(self), packet@),
-                sub_wf(packet@, v9_fn(*old(self), packet@).0, 9),
-    { unimplemented!() }
+//@ stub stubs/v9parser_parse.rs
 }
 impl IPFixParser {
-    #[verifier::external_body]
-    pub fn parse(&mut self, packet: &[u8]) -> (r: Result<ParsedNetflow, NetflowParseError>)
-        ensures (to_subres(r), *final(self)) == ipfix_fn(*old(self), packet@),
-                sub_wf(packet@, ipfix_fn(*old(self), packet@).0, 10),
-    { unimplemented!() }
+//@ stub stubs/ipfixparser_parse.rs
 }
 
 impl NetflowParser {
 //@ fn src/lib.rs - /impl NetflowParser/ parse_packet_by_version
-//@   result: r
-//@   ensures: final(self).allowed_versions == old(self).allowed_versions
-//@   ensures: subres_eq(to_subres(r), pp_spec(state_of(*old(self)), old(self).allowed_versions@, packet@).0)
-//@   ensures: state_of(*final(self)) == pp_spec(state_of(*old(self)), old(self).allowed_versions@, packet@).1
-//@   ensures: r is Ok ==> r->Ok_0.remaining@.len() + 2 <= packet@.len()
-//@   ensures: packet@.len() >= 2 && !old(self).allowed_versions@.contains(be16(packet@, 0)) ==> *final(self) == *old(self)
+//@   contract: stubs/lib_ppbv.rs
 //@   closure 0: p | -> (o: (&'a [u8], u16)) ensures o.0 == p.0, o.1 == p.1.version
 //@   closure 1: - | -> (o: NetflowParseError) ensures o is Incomplete
 //@   before "let (packet, version)": broadcast use lemma_cloned_u8;
